@@ -6,7 +6,9 @@ R5.2  every accessor derivation carries the bitmap offset that matches its point
       the region's own offset for derivation chains of any depth, by induction);
 R5.3  bitmap forwarders (BaseSlice, Option<B>, AtomicBitmap, AtomicBitmapArc) pass offset/len through unchanged
       apart from the documented base-offset addition;
-R5.4  the only APIs that hand out a writable raw handle are the documented exemptions.
+R5.4  the only APIs that hand out a writable raw handle are the documented exemptions;
+R5.5  the bitmap's range loop has inclusive-last-page form (start/page ..= (start + len - 1)/page): a mark must
+      reach the page holding the last written byte (form rule shared with C09 R9.3).
 """
 import re
 
@@ -374,6 +376,10 @@ def run(ctx, progs):
         ctx.floor("R5.3.forwarders", n, 12)
         n = rule_raw_handles(ctx.ob, prog)
         ctx.floor("R5.4.raw_handles", n, 5)
+        # R5.5: a mark only covers what was written if the range loop reaches the page of the LAST byte (form rule shared with C09/C16)
+        from . import c09
+        if "bitmap::backend::atomic_bitmap::AtomicBitmap" in prog.adts:
+            c09.rule_range_form(ctx.ob, prog)
         ctx.extra.setdefault("write_sites", {})[cfg] = {
             "guest_writes": [f"{s['body'].key}:{s['kind']}" for s in sites],
             "raw_helpers": [f"{canon(k[0])}#{k[1]}" for k in raw],
